@@ -318,6 +318,8 @@ func (group *Group) delCustomizePubSession(sessionCtx ICustomizePubSessionContex
 		return
 	}
 
+	// 删除后，业务方继续Feed的数据不能再进入group
+	group.customizePubSession.Dispose()
 	group.delIn()
 }
 
